@@ -38,9 +38,19 @@ func plans() map[string]Plan {
 		QuickCap: 240, ThoroughCap: 3000,
 		Assumptions: baseAssumptions}
 	p["C07"] = Plan{Prop: "C07",
-		Quick:       []Job{{Name: "expressions", Engine: "e4"}},
-		Thorough:    []Job{{Name: "expressions", Engine: "e4"}},
-		QuickCap:    300, ThoroughCap: 3000,
+		Quick:    []Job{{Name: "expressions", Engine: "e4"}},
+		Thorough: []Job{{Name: "expressions", Engine: "e4"}},
+		QuickCap: 300, ThoroughCap: 3000,
 		Assumptions: append([]string{"the expected value is computed from the expression tree with math/big; the replay path re-derives it from the source text with an independent token evaluator (ref/expr.go)"}, baseAssumptions...)}
+	p["C03"] = Plan{Prop: "C03",
+		Quick:    []Job{{Name: "programs", Engine: "e4"}},
+		Thorough: []Job{{Name: "programs", Engine: "e4"}},
+		QuickCap: 300, ThoroughCap: 3000,
+		Assumptions: append([]string{"meaning(p) is computed by ref/asm.go from the abstract program (token-level EQU substitution, relative labels, ICWS'94 draft / ICWS'88 default tables, README lone-operand rule) without calling gmars"}, baseAssumptions...)}
+	p["C08"] = Plan{Prop: "C08",
+		Quick:       []Job{{Name: "for-structures", Engine: "e4"}},
+		Thorough:    []Job{{Name: "for-structures", Engine: "e4"}},
+		QuickCap:    300, ThoroughCap: 3000,
+		Assumptions: append([]string{"unroll(p) and its meaning are computed by the harness (engines/e4/c08.go, ref/asm.go) without calling gmars"}, baseAssumptions...)}
 	return p
 }
